@@ -201,7 +201,13 @@ func runC12(e *sim.Env) {
 			// make the link known to the dialling side so that its peer loop
 			// re-establishes it after a reset (the other side learns the address
 			// from the handshake)
-			a.ps.AddPeer(b.addr)
+			// (not in static runs: the peer loop's very first pass would dial the
+			// same address at the same moment as the Connect below, the two
+			// connections can cancel each other out, and with discovery off nobody
+			// would dial again)
+			if !static {
+				a.ps.AddPeer(b.addr)
+			}
 			ctx, cancel := context.WithTimeout(context.Background(), 5*time.Second)
 			p, err := a.sy.Connect(ctx, b.addr)
 			cancel()
